@@ -6,7 +6,17 @@ from vf import observe
 from vf.sim import State, W
 
 ESP = 3
-STUCK_BOUND = 45.0     # virtual seconds; the built-in retransmission budget ends 20 s after the first transmission
+
+
+def retransmission_budget():
+    """Virtual seconds between the first transmission of a request and the moment the IKE_SA gives up, from the library's own constants
+    (RETRANSMISSION_DELAY * (1 + 2 + ... + MAX_RETRANSMISSIONS) = 20 s on the pinned tree)."""
+    import ikesa as _r
+    d, m = _r.IkeSa.RETRANSMISSION_DELAY, _r.IkeSa.MAX_RETRANSMISSIONS
+    return d * m * (m + 1) / 2
+
+
+STUCK_BOUND = retransmission_budget() + 25.0     # virtual seconds an IKE_SA may stay in one *_REQ_SENT state without progress
 REQ_SENT = {s.name for s in State if s.name.endswith('_REQ_SENT')}
 ESTAB_FAMILY = {s.name for s in State if 10 <= s.value <= 17}
 
